@@ -210,13 +210,14 @@ func (b *Bed) CreateCollection(name string) error {
 }
 
 // Idle waits for logical quiescence of the server side: no announced background goroutine,
-// no database command in progress, no queued notification delivery — stable over three
+// no database command in progress, no queued notification delivery, nothing sent to the broker
+// that it has not yet recorded (kernel receive buffers included) — stable over three
 // consecutive polls. Returns false if that is not reached within the watchdog.
 func (b *Bed) Idle(watchdog time.Duration) bool {
 	deadline := time.Now().Add(watchdog)
 	stable := 0
 	for time.Now().Before(deadline) {
-		if vhook.Pending() == 0 && b.DB.OpenCommands() == 0 && b.MQ.Queued() == 0 {
+		if vhook.Pending() == 0 && b.DB.OpenCommands() == 0 && b.MQ.Queued() == 0 && b.MQ.Unread() == 0 {
 			stable++
 			if stable >= 3 {
 				return true
